@@ -100,7 +100,8 @@ class SignerAuthorization:
 
 class SignerVersion:
     def __init__(self, hash, iteration):
-        if not is_hex_string_of_length(hash, 32):
+        # (bytes.fromhex ignores whitespace, so the text length must be checked too)
+        if not is_hex_string_of_length(hash, 32) or len(hash) != 64:
             raise ValueError("Hash must be a 32-byte hex string")
 
         if type(iteration) == str:
